@@ -168,8 +168,11 @@ def r1_r2(ctx, kind):
         val = {}
         unknown = []
         for gname, gv in guards:
+            neg = str(e1.negate_cond(gname)) if gname in e1.REG else None
             if gname in GUARDS:
                 val[GUARDS[gname]] = gv
+            elif neg in GUARDS:                     # the code tests the complement of the documented condition
+                val[GUARDS[neg]] = not gv
             else:
                 unknown.append(gname)
         inst = "%s:%s" % (kind, ",".join("%s=%s" % (k, "T" if v else "F") for k, v in sorted(val.items())) or "-")
